@@ -1,7 +1,38 @@
+/-
+  C18 on the reactor model, for every accepted round (every sequence of
+  environment decisions the real loop can exhibit and the acceptor recognises).
+-/
 import Gnet.Spec.ReactorSpec
+import Gnet.Proofs.ReactorLife
 namespace Gnet.Props.C18
 open Gnet.Reactor
 
-theorem init_names (cfg : Cfg) : NamesNodup { cfg := cfg } := by simp [NamesNodup]
+/-- fault isolation (frame property): dispatching an event for connection `c` - whatever the
+    kernel answers, including any error at any system call, and whatever the handler does
+    with `c` - leaves every other connection exactly as it was -/
+theorem fault_isolation (fuel : Nat) (c : String) (mask : Nat) (s s' : RState) (r : Ret)
+    (h : (exec fuel (.processIO c mask)).run s = .ok (r, s')) (c' : String) (hc : c' ≠ c) :
+    lookup s' c' = lookup s c' :=
+  Proofs.ReactorLife.fault_isolation fuel c mask s s' r h c' hc
+
+/-- the same for queued tasks and closes of `c` -/
+theorem close_isolation (fuel : Nat) (c : String) (en : Bool) (s s' : RState) (r : Ret)
+    (h : (exec fuel (.close c en)).run s = .ok (r, s')) (c' : String) (hc : c' ≠ c) :
+    lookup s' c' = lookup s c' :=
+  Proofs.ReactorLife.close_isolation fuel c en s s' r h c' hc
+
+/-- a non-retryable read error closes exactly that connection: after an accepted dispatch of a
+    readable event whose read(2) fails with an error other than EAGAIN the connection is no
+    longer opened nor registered and its descriptor has been released -/
+theorem read_error_closes (fuel : Nat) (c : String) (s s' : RState) (r : Ret) (rest : List Tok)
+    (len : Nat) (n : Int) (err : String) (data : List Nat) (x : Conn)
+    (hx : lookup s c = some x) (ho : x.opened = true) (hr : x.registered = true) (hn : NamesNodup s)
+    (ht : s.toks = .enter "read" c "" :: .sysRead c len n err data :: rest)
+    (he : err ≠ "nil") (he2 : err ≠ "EAGAIN")
+    (h : (exec fuel (.elRead c)).run s = .ok (r, s')) :
+    ∃ x', lookup s' c = some x' ∧ x'.opened = false ∧ x'.registered = false ∧ x'.fdOpen = false ∧
+      x'.word = x.word ++ ["close"] ∧ x'.closeErrNil = false :=
+  Proofs.ReactorLife.read_error_closes fuel c s s' r rest len n err data x hx ho hr hn ht he he2 h
 
 end Gnet.Props.C18
+
